@@ -29,6 +29,11 @@ pub fn install_panic_hook() {
     }));
 }
 
+/// Message and location of the last panic seen by the hook on this thread.
+pub fn take_last_panic() -> Option<(String, String)> {
+    LAST_PANIC.with(|p| p.borrow_mut().take())
+}
+
 #[derive(Debug)]
 pub enum Caught<T> {
     Done(T),
@@ -180,6 +185,9 @@ pub struct Outcome {
     pub steps: u64,
     /// names of reach probes hit and fault kinds fired (name -> count)
     pub probes: Vec<(&'static str, u64)>,
+    /// identity used for counting distinct non-trivial cases when it is more than the case
+    /// itself (e.g. workload + realised interleaving)
+    pub distinct_key: Option<u64>,
 }
 
 impl Outcome {
